@@ -154,6 +154,9 @@ def rule_R1(ctx, repo, classes):
                 ctx.violation("R1", key, "constructor takes *args/**kwargs: open parameter set, get_params cannot "
                               "return what was passed", loc)
         if not heaps:
+            if repo.subclasses(c):
+                ctx.count("abstract_constructors")  # an abstract hook raises on every trace; judged in the subclasses
+                continue
             ctx.undecided("R1", owner.qual + ":__init__", "no normal trace through the constructor", loc)
             continue
         for p in params:
@@ -218,6 +221,68 @@ def rule_R2(ctx, repo, classes):
                             continue  # self.p = self.p
                         seen.setdefault(key, (k, fn, stmt, attr, set()))[4].add(c.name)
             ctx.count("R2_methods_scanned", len(k.methods))
+    MUTATORS = ("append", "extend", "insert", "pop", "remove", "sort", "reverse", "clear", "setdefault", "popitem")
+    mut_seen = {}
+    for c in classes:
+        params = ctor_params(repo, c)
+        if not params:
+            continue
+        reach = reachable_methods(repo, c)
+        methods = []
+        for k in repo.mro(c):
+            if isinstance(k, ClassInfo):
+                for mname, fn in k.methods.items():
+                    if (k.qual, mname) in reach and mname not in PARAM_WRITERS:
+                        methods.append((k, fn))
+        # attributes that alias a constructor parameter: self.a = self.p | self.a = self.m() where m returns self.p unchanged
+        alias = {p: p for p in params}
+
+        def returns_param(fn_):
+            rets = astq.returns(fn_)
+            ps = set()
+            for r in rets:
+                v = r.value
+                if isinstance(v, ast.Name):
+                    vals = astq.assigned_values(fn_, v.id)
+                    v = vals[0] if len(vals) == 1 else v
+                if astq.is_self_attr(v) and v.attr in params:
+                    ps.add(v.attr)
+                else:
+                    return None
+            return ps.pop() if len(ps) == 1 else None
+
+        for _ in range(2):
+            for k, fn in methods:
+                for attr, val, stmt in astq.self_attr_stores(fn):
+                    if val is None or attr in params:
+                        continue
+                    src = None
+                    if astq.is_self_attr(val) and val.attr in alias:
+                        src = alias[val.attr]
+                    elif isinstance(val, ast.Call) and isinstance(val.func, ast.Attribute) and dotted(val.func.value) == "self":
+                        hit = repo.lookup_method(c, val.func.attr)
+                        if hit:
+                            src = returns_param(hit[1])
+                    if src:
+                        alias[attr] = src
+        for k, fn in methods:
+            for n in astq.walk_no_nested(fn):
+                tgt = None
+                if isinstance(n, (ast.Assign, ast.AugAssign, ast.Delete)):
+                    tgts = n.targets if isinstance(n, (ast.Assign, ast.Delete)) else [n.target]
+                    for t in tgts:
+                        if isinstance(t, ast.Subscript) and astq.is_self_attr(t.value) and t.value.attr in alias:
+                            tgt = t.value.attr
+                elif isinstance(n, ast.Call) and isinstance(n.func, ast.Attribute) and n.func.attr in MUTATORS \
+                        and astq.is_self_attr(n.func.value) and n.func.value.attr in alias:
+                    tgt = n.func.value.attr
+                if tgt is not None:
+                    key = "%s.%s:%s(in-place)" % (k.qual, fn.name, alias[tgt])
+                    mut_seen.setdefault(key, (k, fn, n, tgt, alias[tgt], set()))[5].add(c.name)
+    for key, (k, fn, node, tgt, p_, users) in sorted(mut_seen.items()):
+        via = "" if tgt == p_ else " through its alias self.%s" % tgt
+        ctx.violation("R2", key, "constructor parameter `%s` (of %s) is mutated in place%s in %s.%s"
+                      % (p_, ", ".join(sorted(users)[:4]), via, k.name, fn.name), ctx.loc(k.module, node))
     for key, (k, fn, stmt, attr, users) in sorted(seen.items()):
         ctx.violation("R2", key, "`self.%s` is a constructor parameter (of %s) and is overwritten in %s.%s"
                       % (attr, ", ".join(sorted(users)[:4]), k.name, fn.name), ctx.loc(k.module, stmt))
@@ -443,6 +508,53 @@ def rule_R4(ctx, repo, flow, sk_classes):
             ctx.violation("R4", key, "%s.%s (defined in %s) can return a result without passing check_is_fitted"
                           % (c.name, m, k.name), ctx.loc(k.module, fn))
     ctx.count("R4_pairs", pairs)
+    # guard-first: where a method calls the guard itself, no validator / horizon setter / raise may run before it
+    done = set()
+    for c in sk_classes:
+        for m in APPLY:
+            hit = repo.lookup_method(c, m)
+            if hit is None:
+                continue
+            k, fn = hit
+            if (k.qual, m) in done:
+                continue
+            done.add((k.qual, m))
+            g = flow.cfg(fn)
+
+            def is_guard(n, c=c, k=k):
+                for cl in n.calls():
+                    if astq.call_name(cl) == "check_is_fitted":
+                        return True
+                    t = flow.resolve_call(cl, k.module, c, k)
+                    if t.kind == "method" and t.func is not None and flow.must_call(t.func, guard, t.module, c, t.defcls, skip=_is_abstract):
+                        return True  # statement-level granularity: a guarded own method called in the same statement
+                return False
+            if not any(astq.call_name(cl) == "check_is_fitted" for n in g.nodes for cl in n.calls()):
+                continue
+            IN, OUT = g.forward_must(is_guard)
+            early = []
+            for n in g.nodes:
+                if n.id not in g.reachable() or IN[n.id] or is_guard(n):
+                    continue
+                # anything that depends on the estimator's (un)fitted state must come after the guard:
+                # calls of own methods and reads of private / fitted attributes.  Validators of the *arguments*
+                # (check_X(X), check_random_state(self.random_state)) reject independently of the fitted state.
+                hit_ = False
+                for cl in n.calls():
+                    f = cl.func
+                    if isinstance(f, ast.Attribute) and ((isinstance(f.value, ast.Name) and f.value.id == "self") or
+                                                         (isinstance(f.value, ast.Call) and dotted(f.value.func) == "super")):
+                        hit_ = True
+                for e in n.exprs:
+                    for sub in astq.walk_no_nested(e):
+                        if astq.is_self_attr(sub) and isinstance(sub.ctx, ast.Load) and (sub.attr.endswith("_") or sub.attr.startswith("_")
+                                                                                          or sub.attr in ("fh", "cutoff")):
+                            hit_ = True
+                if hit_:
+                    early.append(n)
+            ctx.check(not early, "R4", "%s.%s:guard-first" % (k.qual, m), "the not-fitted guard precedes every use of the estimator's own state",
+                      "%s.%s uses the estimator's state (line %s) before the not-fitted guard runs: an unfitted estimator fails with an unrelated error" % (
+                          k.name, m, ", ".join(str(getattr(n.stmt, "lineno", "?")) for n in early[:3])), ctx.loc(k.module, fn))
     # the guard itself
     base = repo.cls(SK_BASE)
     fn = base.methods.get("check_is_fitted")
@@ -541,6 +653,16 @@ def rule_R5(ctx, repo, flow):
             and not reaches(n_super, n_repl) and not reaches(n_super, n_whole)
         ctx.check(ok, "R5", "_set_params:order", "whole list, then component replacement, then remaining parameters",
                   "_set_params does not apply (1) whole list (2) component replacement (3) super().set_params in that order", loc)
+        # the component names used for replacement are read from the attribute *after* the whole-list step
+        reads = [n for n in g.nodes if n is not n_whole and any(
+            astq.call_name(c) == "getattr" and len(c.args) >= 2 and dotted(c.args[0]) == "self" and dotted(c.args[1]) == "attr"
+            for c in n.calls())]
+        stale = [n for n in reads if reaches(n, n_whole)]
+        ctx.check(bool(reads) and not stale, "R5", "_set_params:names-after-whole-list",
+                  "component names are read from the attribute after the whole list was replaced",
+                  "component names are read (line %s) before the whole-list replacement: a component named in the same call as a new list is not replaced"
+                  % ", ".join(str(n.stmt.lineno) for n in stale) if reads else "_set_params never reads the component list",
+                  ctx.loc(mod, (stale[0].stmt if stale else sp)))
         # whole-list assignment is guarded by `attr in params` and consumes the entry
         conds = g.guards_of(n_whole)
         ok = any(br is True and isinstance(t, ast.Compare) and len(t.ops) == 1 and isinstance(t.ops[0], ast.In)
